@@ -259,8 +259,11 @@ Proof.
   intros Hd. unfold gen_run_slice, gen_body_slice. cbn [update].
   unfold slice_state, slice_state_set, slice_detach.
   destruct s as [acc cnt det keyed win seen ports last]. cbn [st_detached] in Hd. subst det. py.
-  destruct ((star <=? cnt) && ((cnt - star) mod step =? 0)); py; rewrite Nat.add_1_r;
-    (destruct stop as [e|]; cbn [is_none optnat_le negb andb]; [destruct (e <=? S cnt); py; reflexivity | reflexivity]).
+  destruct stop as [e|]; cbn [is_none optnat_le negb andb].
+  - destruct (e <=? cnt) eqn:Hf; py; [reflexivity|].
+    destruct ((star <=? cnt) && ((cnt - star) mod step =? 0)); py; rewrite Nat.add_1_r;
+      destruct (e <=? S cnt); py; reflexivity.
+  - py. destruct ((star <=? cnt) && ((cnt - star) mod step =? 0)); py; rewrite Nat.add_1_r; reflexivity.
 Qed.
 Theorem bridge_update_slice star stop step s p x m : st_detached s = false ->
   gen_update_slice star stop step s p x m = update (KSlice star stop step) s p x m.
